@@ -1,7 +1,7 @@
 """Helpers to build real DLISFile / LogicalFile objects inside harnesses (no numpy data path, no clock, no RNG)."""
 from datetime import datetime
 
-from vf.harness.common import THOROUGH, Rope, flat, lits, RepC
+from vf.harness.common import THOROUGH, Rope, flat, lits, RepC, PLAIN
 
 import dliswriter.logical_record.core.eflr.eflr_item as eflr_item_mod
 import dliswriter.logical_record.eflr_types.frame as frame_mod
@@ -17,8 +17,9 @@ def _ksetattr(o, n, v):
     type(o).__setattr__(o, n, v)
 
 
-eflr_item_mod.setattr = _ksetattr
-frame_mod.setattr = _ksetattr
+if not PLAIN:
+    eflr_item_mod.setattr = _ksetattr
+    frame_mod.setattr = _ksetattr
 
 T0 = datetime(2020, 1, 2, 3, 4, 5)
 
@@ -75,7 +76,8 @@ def install_number_shims():
     subtypes_mod.int = kint
 
 
-install_number_shims()
+if not PLAIN:
+    install_number_shims()
 
 
 def reset_global_state():
